@@ -18,6 +18,12 @@ def wrapped(a, b=1):
     return a
 
 
+@deco
+@deco
+def wrapped_twice(a):
+    return a
+
+
 def gen_func(n):
     for i in range(n):
         yield i
